@@ -789,7 +789,13 @@ func containsTypeNotDynamic(info *types.Info, e ast.Expr) bool {
 	found := false
 	ast.Inspect(e, func(n ast.Node) bool {
 		if be, ok := n.(*ast.BinaryExpr); ok && be.Op == token.NEQ {
-			if kindOfTypeExpr(info, be.Y) == "Dynamic" || kindOfTypeExpr(info, be.X) == "Dynamic" {
+			// <result>.Type() != cty.DynamicPseudoType: the test must be on the value's own type
+			// (the checked return type can be dynamic while the value is typed)
+			isValType := func(x ast.Expr) bool {
+				c, ok := ast.Unparen(x).(*ast.CallExpr)
+				return ok && isCall(info, c, "cty.Value.Type")
+			}
+			if (kindOfTypeExpr(info, be.Y) == "Dynamic" && isValType(be.X)) || (kindOfTypeExpr(info, be.X) == "Dynamic" && isValType(be.Y)) {
 				found = true
 			}
 		}
@@ -905,7 +911,36 @@ func runCallMarks(rr *RuleRun) {
 					continue
 				}
 			}
-			// the UnmarkDeep must be conditioned only on !AllowMarked (and ContainsMarked / len(marks) > 0)
+			// the UnmarkDeep must be conditioned only on !AllowMarked (and, at most, a deep ContainsMarked test of the same value)
+			badCond := ""
+			for p := c.Parent(dc); p != nil && p != ast.Node(l.loop.Body); p = c.Parent(p) {
+				ifs, ok := p.(*ast.IfStmt)
+				if !ok {
+					continue
+				}
+				inElse := ifs.Else != nil && ifs.Else.Pos() <= dc.Pos() && dc.End() <= ifs.Else.End()
+				for _, term := range splitAnd(ifs.Cond) {
+					t := ast.Unparen(term)
+					okTerm := false
+					if u, ok := t.(*ast.UnaryExpr); ok && u.Op == token.NOT && !inElse {
+						if se, ok := ast.Unparen(u.X).(*ast.SelectorExpr); ok && se.Sel.Name == "AllowMarked" {
+							okTerm = true
+						}
+					}
+					if cl, ok := t.(*ast.CallExpr); ok && !inElse && isCall(info, cl, "cty.Value.ContainsMarked") {
+						if se, ok := cl.Fun.(*ast.SelectorExpr); ok && objOf(info, se.X) == l.valObj {
+							okTerm = true
+						}
+					}
+					if !okTerm {
+						badCond = exprStr(term)
+					}
+				}
+			}
+			if badCond != "" {
+				rr.Violation(key+"/condition", dc.Pos(), "the deep unmark of an argument whose parameter does not allow marks is additionally conditioned on '"+badCond+"': arguments for which that is false reach the callbacks with their (nested) marks")
+				continue
+			}
 			rr.OK(key, dc.Pos(), "UnmarkDeep → argument copy"+map[bool]string{true: " + result marks", false: ""}[fd == call])
 		}
 	}
